@@ -179,19 +179,28 @@ pub fn fuzz_frontend(cases_path: &str, trace_path: &str, summary_path: &str, nby
             }
         }
     }
+    let inflight = format!("{}.inflight", summary_path);
+    let _ = std::fs::remove_dir_all(&inflight);
+    std::fs::create_dir_all(&inflight).expect("mkdir inflight");
     let results: Vec<(Value, Option<Value>, &'static str)> = par_map_with(
         &inputs,
         threads(),
         |tid| {
             let mut an = Analyzer::new(&format!("fe{tid}"));
             an.install("lib.zy", "()");
-            an
+            (an, format!("{inflight}/{tid}.txt"))
         },
-        |an, _idx, (family, text, mustreject)| {
+        |(an, marker), _idx, (family, text, mustreject)| {
+            // a stack overflow of the code under test cannot be caught: it aborts this process.  Each worker leaves the
+            // input it is working on in a marker file, and the driver confirms the culprit on the real binary.
+            let _ = std::fs::write(&*marker, format!("{family}\n{text}"));
             let o = pipeline(an, text);
             (record(&o, *mustreject), finding(&o, family, text, *mustreject), o.outcome)
         },
-        |an| an.cleanup(),
+        |(an, marker)| {
+            let _ = std::fs::remove_file(marker);
+            an.cleanup()
+        },
     );
     let mut trace = String::new();
     let mut findings = Vec::new();
